@@ -4,7 +4,7 @@
    Level note: the probability laws are about [trial p] = {true: p, false: 1-p}; that a uniform
    variate r satisfies r <= p with probability p is the (unproved) reading of the oracle. *)
 From Coq Require Import List ZArith QArith Bool Arith.
-From EpyV Require Import Model.Kernel Proofs.KernelMember Proofs.KernelSync Proofs.Binomial.
+From EpyV Require Import Lib.Prelude Model.Kernel Model.Compart Proofs.KernelMember Proofs.KernelSync Proofs.Binomial Proofs.KernelSyncLaw.
 Import ListNotations.
 Open Scope Q_scope.
 
@@ -199,3 +199,95 @@ Example C06_example_laws :
   qn (binom 3 2) * qpow (1#3) 2 * qpow (1 - (1#3)) (3 - 2) == 2 # 9 /\
   prob (is_some_k 3) (first_success 5 (1#3)) == 4 # 27.
 Proof. repeat split; vm_compute; reflexivity. Qed.
+
+(* ---------------------------------------------------------------- the one-step law *)
+(* step_dist: the variates a timestep consumes are replaced by every pattern of outcomes of
+   independent trials (success = variate 0, failure = variate 2), each trial with the probability of
+   the event it belongs to, and pushed through tranche and fire_tranche. *)
+Theorem C06_step_dist_unfold : forall W (tb : table W) A t (s : st W) (view : st W -> A),
+  step_dist tb t s view =
+  bind (patterns (trial_probs tb (loci s)))
+       (fun m => ret (view (snd (tranche_step tb t 0 (with_rands (rands_of m) s))))) /\
+  (fixed_rate tb = [] -> length (trial_probs tb (loci s)) = tranche_rands tb (loci s)).
+Proof. intros. split; [reflexivity | exact (trial_probs_all tb (loci s))]. Qed.
+
+(* tranche_step is the timestep of the model after its posted events *)
+Theorem C06_step_is_tranche_step : forall W (tb : table W) pf t (s : st W),
+  sync_step tb pf t s =
+  tranche_step tb t (fst (run_pending tb pf t 0 (set_clock t s))) (set_clock t (snd (run_pending tb pf t 0 (set_clock t s)))).
+Proof. exact (@sync_step_tranche_step). Qed.
+
+(* Partial (general tables are covered by the Examples below and by the exact enumeration of
+   harness/c06law.py on the implementation): for a table with a single per-element event and no
+   fixed-rate event, what a timestep selects is distributed as the image of one independent
+   Bernoulli(p) trial per element of the locus, hence its size is binomial. *)
+Theorem C06_step_law_partial : forall W (tb : table W) (s : st W) x,
+  per_element tb = [x] -> fixed_rate tb = [] -> active (loci s) x = true ->
+  0 <= ev_p (snd x) -> ev_p (snd x) < 2 ->
+  (forall P, prob P (select_dist tb s) == prob P (selected_dist x (ev_p (snd x)) (lookup (loci s) x))) /\
+  (forall k, prob (fun sel => Nat.eqb k (length sel)) (select_dist tb s) ==
+             qn (binom (length (lookup (loci s) x)) k) * qpow (ev_p (snd x)) k *
+             qpow (1 - ev_p (snd x)) (length (lookup (loci s) x) - k)).
+Proof.
+  intros W tb s x Hpe Hfr Ha H0 H2. split.
+  - exact (select_dist_single tb s x Hpe Hfr Ha H0 H2).
+  - exact (select_count_binomial tb s x Hpe Hfr Ha H0 H2).
+Qed.
+
+(* non-vacuity of C06_step_law_partial: one event with p = 1/2 on a locus of three elements *)
+Definition ex_single : table unit :=
+  {| t_maxtime := 2; t_loci := [(0%nat, [EN 1; EN 2; EN 3])];
+     t_procs := [{| p_events := [ {| ev_elem := true; ev_locus := 0; ev_p := 1#2; ev_prog := 0 |} ]; p_setup := [] |}];
+     t_progs := [static []]; t_world := tt; t_equil := fun _ _ => false |}.
+
+Example C06_step_law_partial_example :
+  let s := setup_state ex_single [] [] [] in
+  let x := (0%nat, 0%nat, {| ev_elem := true; ev_locus := 0; ev_p := 1#2; ev_prog := 0 |}) in
+  per_element ex_single = [x] /\ fixed_rate ex_single = [] /\ active (loci s) x = true /\
+  prob (fun sel => Nat.eqb 2 (length sel)) (select_dist ex_single s) == 3 # 8.
+Proof. cbv zeta. repeat split; vm_compute; reflexivity. Qed.
+
+(* The shipped SIR model (Model/Compart.v, the table of harness/compart_coq.py; I = 1, R = 2, S = 3),
+   pInfect = 1/2, pRemove = 1/4: the law of the compartments after the first timestep equals the
+   hand-written product form - every susceptible node with k infectious neighbours becomes infected
+   with probability 1 - (1/2)^k, every infectious node is removed with probability 1/4, independently,
+   all read off the start state.  same_law compares the two laws on all 27 assignments and checks
+   that both have mass 1 and the model's has none elsewhere. *)
+(* path 0 - 1 - 2, node 1 infectious *)
+Example C06_step_law_example_path :
+  same_law (assignments [1; 2; 3]%Z 3)
+    (sir_step [0; 1; 2]%Z [(0, 1); (1, 2)]%Z [(0, 3); (1, 1); (2, 3)]%Z (1#2) (1#4))
+    (indep [two 1 (1#2) 3; two 2 (1#4) 1; two 1 (1#2) 3]) = true.
+Proof. vm_compute. reflexivity. Qed.
+
+(* triangle, node 0 infectious *)
+Example C06_step_law_example_triangle :
+  same_law (assignments [1; 2; 3]%Z 3)
+    (sir_step [0; 1; 2]%Z [(0, 1); (1, 2); (0, 2)]%Z [(0, 1); (1, 3); (2, 3)]%Z (1#2) (1#4))
+    (indep [two 2 (1#4) 1; two 1 (1#2) 3; two 1 (1#2) 3]) = true.
+Proof. vm_compute. reflexivity. Qed.
+
+(* triangle, nodes 0 and 1 infectious: node 2 has two infectious neighbours, 1 - (1/2)^2 = 3/4; the two
+   chosen edges compete for node 2 and the second is skipped (C05) *)
+Example C06_step_law_example_triangle_two :
+  same_law (assignments [1; 2; 3]%Z 3)
+    (sir_step [0; 1; 2]%Z [(0, 1); (1, 2); (0, 2)]%Z [(0, 1); (1, 1); (2, 3)]%Z (1#2) (1#4))
+    (indep [two 2 (1#4) 1; two 2 (1#4) 1; two 1 (3#4) 3]) = true.
+Proof. vm_compute. reflexivity. Qed.
+
+(* the explicit table for the path: 8 outcomes *)
+Example C06_step_law_example_path_table :
+  forallb (fun xq => Qeq_bool (prob (list_eqb Z.eqb (fst xq))
+                                (sir_step [0; 1; 2]%Z [(0, 1); (1, 2)]%Z [(0, 3); (1, 1); (2, 3)]%Z (1#2) (1#4))) (snd xq))
+    [([1; 1; 1], 3#16); ([1; 1; 3], 3#16); ([3; 1; 1], 3#16); ([3; 1; 3], 3#16);
+     ([1; 2; 1], 1#16); ([1; 2; 3], 1#16); ([3; 2; 1], 1#16); ([3; 2; 3], 1#16)]%Z = true.
+Proof. vm_compute. reflexivity. Qed.
+
+(* one pattern followed through a whole run of the model (maximum time 2: exactly one timestep):
+   trial values 0, 2, 2 = edge (0,1) succeeds, edge (2,1) and the removal of 1 fail *)
+Example C06_step_law_example_run :
+  let tb := sir_table [0; 1; 2]%Z [(0, 1); (1, 2)]%Z [(0, 3); (1, 1); (2, 3)]%Z (1#2) (1#4) in
+  let r := sync_run tb 10 10 [0; 2; 2] [] in
+  comps_of [0; 1; 2]%Z (r_final r) = [1; 1; 3]%Z /\ r_time r = 2 /\ r_events r = 1%nat /\ r_stuck r = false /\
+  trial_probs tb (loci (setup_state tb [] [] [])) = [1#2; 1#2; 1#4].
+Proof. cbv zeta. repeat split; vm_compute; reflexivity. Qed.
